@@ -31,7 +31,7 @@ TIERS = {
     "thorough": {"budget_s": 600, "chunk": 400, "selftest": 512, "minimise_s": 90},
 }
 PROBES = ["union_all_branches_fail", "nested_fault", "max_errors_cut", "excess_key", "dropped_required", "varargs_fault",
-          "alias_conflict", "all_of_type_fault", "ignore_constraints_run"]
+          "alias_conflict", "all_of_type_fault", "ignore_constraints_run", "property_output_fault", "max_params_exceeded"]
 
 
 def generate(rng, tier):
@@ -73,6 +73,12 @@ def generate(rng, tier):
     for j in range(rng.choice([0, 0, 1, 2])):
         plan["excess"]["x%d" % j] = tdsl.gen_value(rng, ["leaf"], pool, positions, ("x%d" % j,))
     plan["input"] = inp
+    if kind != "func" and rng.random() < 0.2:
+        plan["max_params"] = rng.choice([1, 2, 3, 4])
+    if kind == "schema" and rng.random() < 0.25:
+        # a typed @property: its value is computed from a payload and converted to the declared type after the fields
+        pt = tdsl.gen_scalar(rng, rule_leaves=RL)
+        plan["pprop"] = {"type": pt, "value": tdsl.gen_value(rng, pt, pool, positions, ("pr",))}
     if kind == "func":
         plan["addition"] = rng.choice([None, "leaf"])   # **kwargs: Leaf or none
         plan["args"] = [tdsl.gen_value(rng, ["leaf"], pool, positions, ("*", i)) for i in range(rng.choice([0, 0, 1, 2]))]
@@ -108,6 +114,8 @@ def build(plan, collect, faulted=True):
         okw["data_first_search"] = plan["dfs"]
     if plan.get("ignore_constraints"):
         okw["ignore_constraints"] = True
+    if plan.get("max_params"):
+        okw["max_params"] = plan["max_params"]
     kind = plan["kind"]
     if kind in ("schema", "dataclass"):
         add = plan["addition"]
@@ -123,6 +131,14 @@ def build(plan, collect, faulted=True):
                 fkw["alias_from"] = list(f["alias_from"])
             if fkw:
                 ns[f["name"]] = Field(**fkw)
+        if plan.get("pprop"):
+            PT = tdsl.build_type(plan["pprop"]["type"])
+            pv = plan["pprop"]["value"]
+
+            def pr(self) -> PT:
+                return tdsl.build_value(pv)
+            pr.__annotations__ = {"return": PT}
+            ns["pr"] = property(pr)
         opts = Options(**okw)
         at_class = plan["opts_at"] == "class"
         # addition is a declaration-level setting (typed addition is resolved by the class parser)
@@ -203,10 +219,19 @@ def ground_truth(plan, stats):
         elif add == "leaf":
             if _item_fails(["leaf"], tdsl.build_value(vx)):
                 G.add(k)
+    if plan.get("max_params"):
+        n_given = len(value) + len(plan["excess"]) + sum(1 for n in (plan.get("conflict") or {}) if n in value)
+        if n_given > plan["max_params"]:
+            G.add("<max_params>")
+            stats["probe:max_params_exceeded"] += 1
     for i, a in enumerate(plan.get("args", [])):
         if _item_fails(["leaf"], tdsl.build_value(a)):
             G.add("*%d" % i)
             stats["probe:varargs_fault"] += 1
+    # a property is computed from the parsed fields, so it can only fail (and be reported) when every input item is fine
+    if not G and plan.get("pprop") and _item_fails(plan["pprop"]["type"], tdsl.build_value(plan["pprop"]["value"])):
+        G.add("pr")
+        stats["probe:property_output_fault"] += 1
     return G
 
 
@@ -247,10 +272,15 @@ def _run(plan, collect):
         items = []
         kinds = []
         for err in e.errors:
-            items.append(_norm_item(plan, getattr(err, "item", None)))
+            it = _norm_item(plan, getattr(err, "item", None))
+            if type(err).__name__ in ("ParamsExceedError", "ParamsLackError"):
+                it = "<max_params>"
+            items.append(it)
             kinds.append([type(err).__name__, str(items[-1])])
         return ("collected", items, len(e.errors), kinds)
     except ParseError as e:
+        if type(e).__name__ in ("ParamsExceedError", "ParamsLackError"):
+            return ("ParseError", "<max_params>")
         return ("ParseError", _norm_item(plan, getattr(e, "item", None)))
     except Exception as e:  # noqa
         return ("raw", type(e).__name__, kernel.clean_text(e, 120))
@@ -275,6 +305,7 @@ def execute(plan):
             ctl["input"][f["name"]] = tdsl.gen_value(random.Random(1), f["type"], pool, [], ())
     ctl["drop"] = []
     ctl["conflict"] = {}
+    ctl.pop("max_params", None)
     c1, c2 = _run(ctl, False), _run(ctl, True)
     if c1[0] != "ok" or c2 != c1:
         raise kernel.HarnessError(f"C10 control: fail-fast {c1} collecting {c2} plan={kernel.jdump(ctl)}")
